@@ -9,7 +9,14 @@
          3 dump                     -> [lg_k; C; offset; fic; flavor; merge; kxp; hip; has_table; |win|; win...; |tab|; sorted tab...]
          4 validate                 -> [0|1]
          5 matrix                   -> the K rows of build_bit_matrix
-         6 flavor_of [lg_k; c]      -> [determine_flavor code]      (u32 arithmetic as compiled)
+         6 flavor_of [lg_k; c]      -> [determine_flavor code]      (u64 arithmetic of the repaired crate = unbounded)
+         9 phase_of  [lg_k; c]      -> [determine_pseudo_phase]     (hook CpcSketch::verif_determine_pseudo_phase)
+        30 big       [lg_k; full_cols; extra] -> [C; flavor; offset; validate; 1; C'; 1]
+                     a fresh sketch receives full_cols complete columns 0.. and [extra] rows of the next column
+                     (all pairs distinct, rows in a scrambled order), is serialized and deserialized; C' is the
+                     coupon count of the copy and the last 1 says its bit matrix equals the original's.  The model
+                     answers in closed form (C = full_cols * K + extra; flavor and offset are functions of C by
+                     cpc_refines); the lists of the executable model are too slow for lg_k >= 17.
          7 offset_of [lg_k; c]      -> [determine_correct_offset]
          8 estimate                 -> [bits of estimate()]  (HIP only: merge_flag = false)
    summary = [C; offset; fic; flavor; kxp bits; hip bits]
@@ -28,7 +35,7 @@
         23 un_result [uslot; slot]         -> sk_dump of to_sketch(), which is stored in [slot]
    kxp / HIP are not observed on this path: the accumulator's float registers depend on the order in which
    the source's hash-table slots are walked, and are dead once merge_flag is set. *)
-From DS Require Import Base.Prelude Base.FloatBits Model.Cpc Model.CpcUnion.
+From DS Require Import Base.Prelude Base.FloatBits Model.Cpc Model.CpcUnion Model.CpcPhase.
 From Coq Require Import Floats FSets.FMapPositive.
 Open Scope Z_scope.
 
@@ -84,7 +91,10 @@ Definition step (cfg : list Z) (st : cstate) (o : zop) : cstate * list Z :=
   let a0 := nth 0 a 0 in let a1 := nth 1 a 0 in
   match code with
   | 0 => match cpc_new (zN (nth 0 cfg 0)) with Ok s => (set_cur st (Some s), []) | _ => (set_cur st None, PANIC) end
-  | 6 => (st, [Nz (determine_flavor_u32 (zN a0) (zN a1))])
+  | 6 => (st, [Nz (determine_flavor (zN a0) (zN a1))])
+  | 9 => (st, match determine_pseudo_phase (zN a0) (zN a1) with Ok p => [Nz p] | _ => PANIC end)
+  | 30 => let lgk := zN a0 in let c := (zN a1 * 2 ^ lgk + zN (nth 2 a 0%Z))%N in
+          (st, [Nz c; Nz (determine_flavor lgk c); Nz (determine_correct_offset lgk c); 1; 1; Nz c; 1])
   | 7 => (st, [Nz (determine_correct_offset (zN a0) (zN a1))])
   | 10 => match cpc_new (zN a1) with Ok s => (set_sk st a0 s, []) | _ => (st, PANIC) end
   | 11 => match lookup a0 (cs_sk st) with
@@ -247,8 +257,7 @@ Fixpoint prop_from (lgk : N) (st : ospec) (ops : list zop) (obs : list (list Z))
       | 4 => list_eqb Z.eqb ob [1] && prop_from lgk st r obr
       | 5 => (Z.of_nat (length ob) =? Nz (2 ^ lgk)) && rows_ok st 0 ob && prop_from lgk st r obr
       | 6 => let l := zN (nth 0 a 0) in let c := zN (nth 1 a 0) in
-             (* outside the u32 range of `c << 5` the crate's answer is not covered by C05 (C17) *)
-             ((134217728 <=? c)%N || (zN (zat ob 0) =? spec_flavor l c)%N) && prop_from lgk st r obr
+             (zN (zat ob 0) =? spec_flavor l c)%N && (0 <=? zat ob 0) && prop_from lgk st r obr
       | 7 => let l := zN (nth 0 a 0) in let c := zN (nth 1 a 0) in
              (zN (zat ob 0) =? spec_offset l c)%N && (0 <=? zat ob 0) && prop_from lgk st r obr
       | _ => negb (list_eqb Z.eqb ob PANIC) && prop_from lgk st r obr
@@ -370,4 +379,33 @@ Fixpoint union_from (sks : list (Z * sspec)) (uns : list (Z * uspec)) (ops : lis
 
 Definition union_ok (c : case) : bool := union_from [] [] (c_ops c) (c_obs c).
 
-Definition oracles : list (Z * (case -> bool)) := [(0, prop_ok); (1, union_ok)].
+(* ------------------------------------------------------------------------------------------------
+   Oracle of the C17 leg (configuration extremes): no operation panics, and the pure threshold functions
+   and the scripted large sketches answer what the thresholds say in unbounded arithmetic. *)
+Definition spec_phase (lgk c : N) : N :=
+  let k := (2 ^ lgk)%N in
+  if (1000 * c <? 2375 * k)%N then
+    if (4 * c <? 3 * k)%N then 16%N else if (10 * c <? 11 * k)%N then 17%N else if (100 * c <? 132 * k)%N then 18%N
+    else if (3 * c <? 5 * k)%N then 19%N else if (1000 * c <? 1965 * k)%N then 20%N
+    else if (1000 * c <? 2275 * k)%N then 21%N else 6%N
+  else ((c / 2 ^ (lgk - 4)) mod 16)%N.
+
+Fixpoint extremes_from (ops : list zop) (obs : list (list Z)) : bool :=
+  match ops, obs with
+  | (code, a) :: r, ob :: obr =>
+      let l := zN (nth 0 a 0) in let c := zN (nth 1 a 0) in
+      negb (list_eqb Z.eqb ob PANIC) &&
+      match code with
+      | 6 => (zN (zat ob 0) =? spec_flavor l c)%N && (0 <=? zat ob 0)
+      | 7 => (zN (zat ob 0) =? spec_offset l c)%N && (0 <=? zat ob 0)
+      | 9 => (zN (zat ob 0) =? spec_phase l c)%N && (0 <=? zat ob 0)
+      | 30 => let cc := (c * 2 ^ l + zN (nth 2 a 0%Z))%N in
+              list_eqb Z.eqb ob [Nz cc; Nz (spec_flavor l cc); Nz (spec_offset l cc); 1; 1; Nz cc; 1]
+      | _ => true
+      end && extremes_from r obr
+  | _, _ => true
+  end.
+
+Definition extremes_ok (c : case) : bool := extremes_from (c_ops c) (c_obs c).
+
+Definition oracles : list (Z * (case -> bool)) := [(0, prop_ok); (1, union_ok); (2, extremes_ok)].
